@@ -150,25 +150,40 @@ theorem bounds_crossing_rejects_all (lo hi x : Rat) (h : hi < lo) :
 theorem bounds_none_accepts_all (x : Rat) : Bounds.none.check x = .ok () := by
   simp [check_ok_iff, Bounds.none]
 
-/-- a bound tuple applies to every key; a bound dictionary leaves unlisted keys unconstrained -/
+private theorem lookup_none_of_not_mem (m : List (Nat × Bounds)) (k : Nat) (h : ∀ p ∈ m, p.1 ≠ k) :
+    m.lookup k = none := by
+  induction m with
+  | nil => rfl
+  | cons p m ih =>
+    obtain ⟨a, b⟩ := p
+    have h1 : a ≠ k := h (a, b) List.mem_cons_self
+    have h1' : (k == a) = false := by simpa using fun e => h1 e.symm
+    rw [List.lookup_cons, h1']
+    exact ih (fun p hp => h p (List.mem_cons_of_mem _ hp))
+
+/-- a bound tuple applies to every key; a bound dictionary (or an explicit plain dictionary of checkers)
+    leaves unlisted keys unconstrained; an explicit defaultdict gives unlisted keys its factory's checker;
+    a listed key gets its own bounds -/
 theorem boundMap_get_default :
     (∀ b k, (BoundMap.all b).get k = b) ∧
     (∀ m k, (∀ p ∈ m, p.1 ≠ k) → (BoundMap.byKey m).get k = Bounds.none) ∧
-    (∀ m k b, (BoundMap.byKey ((k, b) :: m)).get k = b) := by
-  refine ⟨fun _ _ => rfl, ?_, ?_⟩
+    (∀ m k b, (BoundMap.byKey ((k, b) :: m)).get k = b) ∧
+    (∀ m d k, (∀ p ∈ m, p.1 ≠ k) → (BoundMap.withDefault m d).get k = d) ∧
+    (∀ m d k b, (BoundMap.withDefault ((k, b) :: m) d).get k = b) := by
+  refine ⟨fun _ _ => rfl, ?_, ?_, ?_, ?_⟩
   · intro m k h
-    have : m.lookup k = none := by
-      induction m with
-      | nil => rfl
-      | cons p m ih =>
-        obtain ⟨a, b⟩ := p
-        have h1 : a ≠ k := h (a, b) List.mem_cons_self
-        have h1' : (k == a) = false := by simpa using fun e => h1 e.symm
-        rw [List.lookup_cons, h1']
-        exact ih (fun p hp => h p (List.mem_cons_of_mem _ hp))
-    simp [BoundMap.get, this]
+    simp [BoundMap.get, lookup_none_of_not_mem m k h]
   · intro m k b
     simp [BoundMap.get]
+  · intro m d k h
+    simp [BoundMap.get, lookup_none_of_not_mem m k h]
+  · intro m d k b
+    simp [BoundMap.get]
+
+/-- an empty explicit mapping: a plain `{}` constrains nothing, an empty defaultdict constrains every key by
+    its factory -/
+theorem boundMap_empty (d : Bounds) (k : Nat) :
+    (BoundMap.byKey []).get k = Bounds.none ∧ (BoundMap.withDefault [] d).get k = d := ⟨rfl, rfl⟩
 
 /-! ## acceptance = validity -/
 
